@@ -163,7 +163,9 @@ fn has(f: &PathFlags, bit: PathFlags) -> bool {
 }
 
 /// Oracle on a successful plan. `gap_closing_used`: some strategy started more than one RRT (onboarding + gap closing).
-pub fn judge_path(s: &Scenario, b: &Built, path: &[AnnotatedJoints], gap_closing_used: bool) -> Vec<(String, String)> {
+pub fn judge_path(s: &Scenario, b: &Built, path: &[AnnotatedJoints], gap_closing: Option<bool>) -> Vec<(String, String)> {
+    // Some(false): no strategy used RRT gap closing, so everything after LAND is the Cartesian phase; None: unknown
+    let pure_cartesian = gap_closing == Some(false);
     let mut fails = Vec::new();
     let cell = &b.cell;
     let obst = format!("obstacle{}", s.obstacle);
@@ -234,6 +236,29 @@ pub fn judge_path(s: &Scenario, b: &Built, path: &[AnnotatedJoints], gap_closing
             fails.push(("C12/interpolated-waypoints-not-requested".to_string(), format!("waypoint {i} carries LIN_INTERP although include_linear_interpolation is false")));
         }
     }
+    // (6') in a purely Cartesian run every waypoint after LAND is either one of the given poses or an interpolated
+    // pose; the latter must carry LIN_INTERP, and must be absent altogether when interpolation was not requested
+    if pure_cartesian && anchors.len() == wanted.len() {
+        for i in anchors[0] + 1..path.len() {
+            if anchors.contains(&i) {
+                continue;
+            }
+            if !s.interp {
+                fails.push((
+                    "C12/unrequested-interpolated-waypoint-without-flag".to_string(),
+                    format!("waypoint {i} (flags {:#b}) lies between the given poses although interpolation was not requested and no RRT leg was used", path[i].flags.bits()),
+                ));
+                break;
+            }
+            if !has(&path[i].flags, PathFlags::LIN_INTERP) {
+                fails.push((
+                    "C12/interpolated-waypoint-not-flagged".to_string(),
+                    format!("waypoint {i} (flags {:#b}) is an intermediate Cartesian waypoint but does not carry LIN_INTERP", path[i].flags.bits()),
+                ));
+                break;
+            }
+        }
+    }
     // (4) interpolated waypoints lie on the segment between the original poses around them
     if anchors.len() == wanted.len() {
         for k in 0..anchors.len() - 1 {
@@ -260,7 +285,7 @@ pub fn judge_path(s: &Scenario, b: &Built, path: &[AnnotatedJoints], gap_closing
             }
         }
         // (5) transition cost between consecutive Cartesian waypoints
-        if s.interp && !gap_closing_used {
+        if s.interp && pure_cartesian {
             let lim = COSTS[s.cost] * (1.0 + 1e-12);
             for i in anchors[0]..anchors[anchors.len() - 1] {
                 let c = transition_costs(&path[i].joints, &path[i + 1].joints, &DEFAULT_TRANSITION_COSTS);
@@ -288,13 +313,25 @@ fn gap_closing_in(events: &[(usize, &'static str)]) -> bool {
 }
 
 /// E1: one scenario on free-running rayon with the recorder on.
-pub fn eval_scenario(s: &Scenario) -> (Vec<(String, String)>, String) {
+pub fn eval_scenario(s: &Scenario, with_recorder: bool) -> (Vec<(String, String)>, String) {
     let b = build(s);
     let mut fails = Vec::new();
     if b.robot.collides(&b.from) {
         return (fails, "start-collides".into());
     }
+    if with_recorder {
+        verif_hooks::arm_recorder();
+    }
     let res = plan(s, &b);
+    // gap closing is known exactly with the recorder; with the generous cost limit a transition can only fail on an
+    // unreachable pose, which RRT cannot close either, so an Ok path had none
+    let gap = if with_recorder {
+        Some(gap_closing_in(&verif_hooks::disarm_recorder()))
+    } else if s.cost == 2 {
+        Some(false)
+    } else {
+        None
+    };
     match res {
         Err(m) => {
             fails.push(("C12/panic".to_string(), m));
@@ -307,10 +344,7 @@ pub fn eval_scenario(s: &Scenario) -> (Vec<(String, String)>, String) {
             (fails, format!("err:obstacle{}", s.obstacle))
         }
         Ok(Ok(path)) => {
-            // without a per-call recorder (plans run concurrently) the cost clause is judged only when no RRT node can be inside the Cartesian part:
-            // gap closing happens only if a transition failed, i.e. never with the generous cost limit
-            let gap_possible = s.cost != 2;
-            fails.extend(judge_path(s, &b, &path, gap_possible));
+            fails.extend(judge_path(s, &b, &path, gap));
             let n_interp = path.iter().filter(|w| has(&w.flags, PathFlags::LIN_INTERP)).count();
             (fails, format!("ok:obstacle{}:interp{}:n{}", s.obstacle, if n_interp > 0 { "yes" } else { "no" }, (path.len() / 4) * 4))
         }
@@ -358,7 +392,7 @@ pub fn explore_schedules(s: &Scenario, bound: Option<usize>, cap: usize) -> Sche
             let (ok, fails) = match &res {
                 Err(m) => (false, vec![("C12/panic".to_string(), m.clone())]),
                 Ok(Err(_)) => (false, vec![]),
-                Ok(Ok(path)) => (true, judge_path(s, &b, path, gap)),
+                Ok(Ok(path)) => (true, judge_path(s, &b, path, Some(gap))),
             };
             results.push((prefix.to_vec(), ok, fails, rec.divergence.clone(), projection(&rec.events, n_strat), rec.events.len()));
             rec
@@ -420,7 +454,7 @@ fn conformance(s: &Scenario, explored: &SchedOutcome) -> (u64, Vec<(String, Stri
                 ));
             }
             if let Ok(Ok(path)) = &res {
-                for (k, d) in judge_path(s, &b, path, gap_closing_in(&events)) {
+                for (k, d) in judge_path(s, &b, path, Some(gap_closing_in(&events))) {
                     fails.push((k, d, json!({"kind": "scenario", "scenario": s.json()})));
                 }
             }
@@ -485,7 +519,7 @@ pub fn run(ctx: &Ctx) -> Report {
             start: ix[0], stroke: ix[1], cornered: ix[2] == 1, step_m: ix[3], step_rad: ix[4], cost: ix[5], depth: ix[6], interp: ix[7] == 1,
             obstacle: ix[8], safety: ix[9], limits: ix[10], rrt_try: [4, 1, 0][(ix[0] + ix[5]) % 3], rng: 0, land: (ix[1] + ix[3]) % 2,
         };
-        let (fails, sig) = eval_scenario(&s);
+        let (fails, sig) = eval_scenario(&s, false);
         r.states += 1;
         r.transitions += 1;
         r.sig(sig);
@@ -496,6 +530,34 @@ pub fn run(ctx: &Ctx) -> Report {
             r.fail(key, idx, json!({"kind": "scenario", "scenario": s.json()}), d);
         }
     });
+    // Sequential pass with the event recorder (one plan at a time): tight cost limits, where bisection and RRT gap
+    // closing both occur; knowing which happened lets the cost / flag clauses be judged exactly.
+    {
+        let mut seq = 0u64;
+        for idx in 0..n {
+            let mut ix = [0usize; 11];
+            par::decode(idx, &sizes, &mut ix);
+            // cost limit 0.02 or 0.2, recursion allowed, every 5th (quick) scenario of that sub-lattice
+            if ix[5] == 2 || ix[6] == 0 || ix[8] > 3 {
+                continue;
+            }
+            seq += 1;
+            if seq % (if thorough { 2 } else { 18 }) != 0 {
+                continue;
+            }
+            let s = Scenario {
+                start: ix[0], stroke: ix[1], cornered: ix[2] == 1, step_m: ix[3], step_rad: ix[4], cost: ix[5], depth: ix[6], interp: ix[7] == 1,
+                obstacle: ix[8], safety: ix[9], limits: ix[10], rrt_try: 4, rng: 0, land: (ix[1] + ix[3]) % 2,
+            };
+            let (fails, sig) = eval_scenario(&s, true);
+            rep.states += 1;
+            rep.transitions += 1;
+            rep.sig(format!("recorded:{sig}"));
+            for (key, d) in fails {
+                rep.fail(key, n + 100 + idx, json!({"kind": "scenario", "scenario": s.json()}), d);
+            }
+        }
+    }
     verif_hooks::disarm_global_script();
 
     // E4 + conformance (one plan at a time: the controller is process-wide)
@@ -548,7 +610,7 @@ pub fn replay(case: &Value) -> Vec<String> {
             match res {
                 Err(m) => vec![format!("C12/panic: {m}")],
                 Ok(Err(_)) => vec![],
-                Ok(Ok(path)) => judge_path(&s, &b, &path, gap_closing_in(&rec.events)).into_iter().map(|(k, d)| format!("{k}: {d}")).collect(),
+                Ok(Ok(path)) => judge_path(&s, &b, &path, Some(gap_closing_in(&rec.events))).into_iter().map(|(k, d)| format!("{k}: {d}")).collect(),
             }
         }
         "schedule-set" => {
@@ -559,7 +621,7 @@ pub fn replay(case: &Value) -> Vec<String> {
         }
         _ => {
             verif_hooks::arm_global_script(Box::new(move |_| unit_draw(0)));
-            let r = eval_scenario(&s).0.into_iter().map(|(k, d)| format!("{k}: {d}")).collect();
+            let r = eval_scenario(&s, true).0.into_iter().map(|(k, d)| format!("{k}: {d}")).collect();
             verif_hooks::disarm_global_script();
             r
         }
